@@ -1,6 +1,294 @@
-//! ideal operations (stub; filled in by the area owner).
+//! C16/C17: ideals of an order (src/ideal.rs), the inverse different (MultTable::get_inv_diff),
+//! decomposition of a rational prime (src/prime_decomp).  Same operations as ocaml/ops_ideal.ml.
+//!
+//! Context argument (first argument of every operation):
+//!   [ord O f]       order O (constructor term as in ops/algorder.rs), table = O.get_mult_table(theta_f)
+//!   [ordtab O f T]  order O, minimal polynomial f, explicit table T (not checked against O)
+//!   [tab T]         explicit table T only (no order; operations that need one reject it)
+//! Ideal argument (the fields of `Ideal` are private; these are the public ways to build one):
+//!   [gens g1 .. gk] Ideal::principal(g1) + .. + Ideal::principal(gk), k >= 1, added from the left
+//!   [rows M]        Ideal::new(HNF::new(M), table)
+//!   [add I J] [mul I J] [pow I k] (k >= 1: ((I*I)*I)..)
+//! Answers are [basis result] with the stored basis of the order ([] for [tab T]); an ideal is
+//! answered as its HNF matrix, read from the derived Debug output (the library has no accessor).
+use crate::ops::poly::{qp, zp};
 use crate::term::*;
+use num::{BigInt, Zero};
+use rust_number_theory::algebraic::Algebraic;
+use rust_number_theory::ideal::Ideal;
+use rust_number_theory::mult_table::MultTable;
+use rust_number_theory::order::{self, Order};
+use rust_number_theory::polynomial::Polynomial;
+use rust_number_theory::prime_decomp;
+use rust_number_theory::verif_hooks;
+use number_theory_linear::hnf::HNF;
+use std::panic::{catch_unwind, AssertUnwindSafe};
 
-pub fn dispatch(_op: &str, _a: &[Term]) -> Option<Term> {
-    None
+// ---- small helpers copied from ops/algorder.rs (private there)
+
+fn alg(f: &Term, e: &Term) -> Algebraic {
+    Algebraic { min_poly: zp(f), expr: qp(e) }
+}
+
+fn ord(t: &Term) -> Order {
+    let l = t.list();
+    match (l[0].id(), l.len()) {
+        ("basis", 2) => Order::from_basis(&l[1].rmat()),
+        ("sg", 3) => Order::singly_gen(&alg(&l[1], &l[2])),
+        ("sgnew", 2) => Order::singly_gen(&Algebraic::new(zp(&l[1]))),
+        ("triv", 2) => order::trivial_order_monic(&Algebraic::new(zp(&l[1]))),
+        ("nonmonic", 2) => order::non_monic_initial_order(&Algebraic::new(zp(&l[1]))),
+        _ => panic!("harness: expected order constructor, got {t}"),
+    }
+}
+
+fn table(t: &Term) -> MultTable {
+    MultTable::new(t.list().iter().map(|m| m.imat()).collect())
+}
+
+/// theta only supplies the minimal polynomial to get_mult_table
+fn theta(f: &Term) -> Algebraic {
+    Algebraic { min_poly: zp(f), expr: qp(&tl(vec![])) }
+}
+
+/// The first bracketed nest after `key` in a derived `Debug` output (BigInt prints in decimal), as a term.
+fn nested_after(s: &str, key: &str) -> Term {
+    let start = s.find(key).unwrap_or_else(|| panic!("harness: no {key} in {s}")) + key.len();
+    let mut depth = 0i32;
+    let mut end = start;
+    for (k, c) in s[start..].char_indices() {
+        match c {
+            '[' => depth += 1,
+            ']' => {
+                depth -= 1;
+                if depth == 0 {
+                    end = start + k + 1;
+                    break;
+                }
+            }
+            _ => {}
+        }
+    }
+    let txt: String = s[start..end].chars().map(|c| if c == ',' { ' ' } else { c }).collect();
+    let toks = parse_line(&txt).unwrap_or_else(|e| panic!("harness: cannot parse {txt}: {e}"));
+    toks[0].clone()
+}
+
+/// [ok v] | [panic class] for a sub-computation whose panic must not hide what was computed before it
+fn caught(f: impl FnOnce() -> Term) -> Term {
+    match catch_unwind(AssertUnwindSafe(f)) {
+        Ok(t) => tl(vec![tid("ok"), t]),
+        Err(_) => {
+            let msg = crate::LAST_PANIC.with(|p| p.borrow().clone());
+            tl(vec![tid("panic"), tid(crate::classify(&msg))])
+        }
+    }
+}
+
+// ---- contexts and ideals
+
+struct Ctx {
+    order: Option<Order>,
+    f: Option<Polynomial<BigInt>>,
+    table: MultTable,
+}
+
+fn ctx(t: &Term) -> Ctx {
+    let l = t.list();
+    match (l[0].id(), l.len()) {
+        ("ord", 3) => {
+            let o = ord(&l[1]);
+            let mt = o.get_mult_table(&theta(&l[2]));
+            Ctx { order: Some(o), f: Some(zp(&l[2])), table: mt }
+        }
+        ("ordtab", 4) => {
+            let o = ord(&l[1]);
+            Ctx { order: Some(o), f: Some(zp(&l[2])), table: table(&l[3]) }
+        }
+        ("tab", 2) => Ctx { order: None, f: None, table: table(&l[1]) },
+        _ => panic!("harness: expected context, got {t}"),
+    }
+}
+
+fn basis_term(c: &Ctx) -> Term {
+    match &c.order {
+        Some(o) => trmat(&o.basis()),
+        None => tl(vec![]),
+    }
+}
+
+fn with_basis(c: &Ctx, r: Term) -> Term {
+    tl(vec![basis_term(c), r])
+}
+
+fn ideal<'a>(t: &Term, mt: &'a MultTable) -> Ideal<'a> {
+    let l = t.list();
+    match (l[0].id(), l.len()) {
+        ("gens", n) if n >= 2 => {
+            let mut acc = Ideal::principal(&l[1].ints(), mt);
+            for g in &l[2..] {
+                let pg = Ideal::principal(&g.ints(), mt);
+                acc = &acc + &pg;
+            }
+            acc
+        }
+        ("rows", 2) => Ideal::new(HNF::new(&l[1].imat()), mt),
+        ("add", 3) => {
+            let (x, y) = (ideal(&l[1], mt), ideal(&l[2], mt));
+            &x + &y
+        }
+        ("mul", 3) => {
+            let (x, y) = (ideal(&l[1], mt), ideal(&l[2], mt));
+            &x * &y
+        }
+        ("pow", 3) => {
+            let x = ideal(&l[1], mt);
+            let k = l[2].usize();
+            if k == 0 {
+                panic!("harness: pow needs k >= 1");
+            }
+            let mut acc = x.clone();
+            for _ in 1..k {
+                acc = &acc * &x;
+            }
+            acc
+        }
+        _ => panic!("harness: expected ideal, got {t}"),
+    }
+}
+
+fn thnf(i: &Ideal) -> Term {
+    nested_after(&format!("{:?}", i), "HNF(")
+}
+
+/// e_0 scaled by d: the coordinate vector of the rational integer d when w_0 = 1
+fn scalar_vec(n: usize, d: &BigInt) -> Vec<BigInt> {
+    let mut v = vec![BigInt::zero(); n];
+    if n > 0 {
+        v[0] = d.clone();
+    }
+    v
+}
+
+pub fn dispatch(op: &str, a: &[Term]) -> Option<Term> {
+    Some(match op {
+        "id_hnf" => {
+            let c = ctx(&a[0]);
+            let i = ideal(&a[1], &c.table);
+            with_basis(&c, thnf(&i))
+        }
+        // id_info ctx I x -> [hnf norm cap_z contains(x)] (the last three each [ok v] | [panic class])
+        "id_info" => {
+            let c = ctx(&a[0]);
+            let i = ideal(&a[1], &c.table);
+            let x = a[2].ints();
+            let r = tl(vec![
+                thnf(&i),
+                caught(|| tb(&i.norm())),
+                caught(|| tb(&i.cap_z())),
+                caught(|| tbool(i.contains(&x))),
+            ]);
+            with_basis(&c, r)
+        }
+        "id_norm" => {
+            let c = ctx(&a[0]);
+            let i = ideal(&a[1], &c.table);
+            with_basis(&c, tb(&i.norm()))
+        }
+        "id_cap_z" => {
+            let c = ctx(&a[0]);
+            let i = ideal(&a[1], &c.table);
+            with_basis(&c, tb(&i.cap_z()))
+        }
+        "id_contains" => {
+            let c = ctx(&a[0]);
+            let i = ideal(&a[1], &c.table);
+            with_basis(&c, tbool(i.contains(&a[2].ints())))
+        }
+        "id_eq" => {
+            let c = ctx(&a[0]);
+            let (i, j) = (ideal(&a[1], &c.table), ideal(&a[2], &c.table));
+            with_basis(&c, tbool(i == j))
+        }
+        // id_pair ctx I J -> [hI hJ I+J I*J J*I norm(I) norm(J) norm(I*J)]
+        "id_pair" => {
+            let c = ctx(&a[0]);
+            let (i, j) = (ideal(&a[1], &c.table), ideal(&a[2], &c.table));
+            let s = &i + &j;
+            let p = &i * &j;
+            let q = &j * &i;
+            let r = tl(vec![thnf(&i), thnf(&j), thnf(&s), thnf(&p), thnf(&q), tb(&i.norm()), tb(&j.norm()), tb(&p.norm())]);
+            with_basis(&c, r)
+        }
+        // id_laws ctx I J K -> [hI hJ hK IJ JI (IJ)K I(JK) J+K I(J+K) IJ+IK I+J J+I]
+        "id_laws" => {
+            let c = ctx(&a[0]);
+            let (i, j, k) = (ideal(&a[1], &c.table), ideal(&a[2], &c.table), ideal(&a[3], &c.table));
+            let ij = &i * &j;
+            let ji = &j * &i;
+            let ij_k = &ij * &k;
+            let jk = &j * &k;
+            let i_jk = &i * &jk;
+            let jpk = &j + &k;
+            let i_jpk = &i * &jpk;
+            let ik = &i * &k;
+            let ijpik = &ij + &ik;
+            let ipj = &i + &j;
+            let jpi = &j + &i;
+            let r = tl(vec![
+                thnf(&i), thnf(&j), thnf(&k), thnf(&ij), thnf(&ji), thnf(&ij_k), thnf(&i_jk), thnf(&jpk), thnf(&i_jpk),
+                thnf(&ijpik), thnf(&ipj), thnf(&jpi),
+            ]);
+            with_basis(&c, r)
+        }
+        // id_inv_diff ctx -> [denom hnf(numer) norm(numer)]
+        "id_inv_diff" => {
+            let c = ctx(&a[0]);
+            let d = c.table.get_inv_diff();
+            let r = tl(vec![tb(d.denom()), thnf(d.numer()), tb(&d.numer().norm())]);
+            with_basis(&c, r)
+        }
+        // id_inv ctx I -> [hI denom(D^-1) hnf(numer D^-1) a hnf(N) flag], (a, N) = I.inv(D^-1), flag = (I * N == principal(a e_0))
+        "id_inv" => {
+            let c = ctx(&a[0]);
+            let i = ideal(&a[1], &c.table);
+            let d = c.table.get_inv_diff();
+            let r = i.inv(&d);
+            let prod = &i * r.numer();
+            let pd = Ideal::principal(&scalar_vec(c.table.deg(), r.denom()), &c.table);
+            let res = tl(vec![thnf(&i), tb(d.denom()), thnf(d.numer()), tb(r.denom()), thnf(r.numer()), tbool(prod == pd)]);
+            with_basis(&c, res)
+        }
+        // dec_decompose ctx p seed script -> [ok [basis [[hnf e] ..]] bytes] | [panic class bytes]
+        "dec_decompose" => {
+            let c = ctx(&a[0]);
+            let (o, f) = match (&c.order, &c.f) {
+                (Some(o), Some(f)) => (o, f),
+                _ => panic!("harness: dec_decompose needs an order"),
+            };
+            let p = a[1].int();
+            let th = Algebraic::new(f.clone());
+            verif_hooks::install(a[2].u64(), a[3].bytes());
+            let res = catch_unwind(AssertUnwindSafe(|| {
+                let r = prime_decomp::decompose(&th, o, &c.table, &p);
+                tl(r.iter().map(|(i, e)| tl(vec![thnf(i), ti(*e as u64)])).collect())
+            }));
+            match res {
+                Ok(t) => tl(vec![tid("ok"), with_basis(&c, t), tbytes(&verif_hooks::take_log())]),
+                Err(_) => {
+                    let msg = crate::LAST_PANIC.with(|p| p.borrow().clone());
+                    tl(vec![tid("panic"), tid(crate::classify(&msg)), tbytes(&verif_hooks::take_log())])
+                }
+            }
+        }
+        // dec_lib_norms f p : the library on the maximal order it computes itself, as the CLI does: [[norm e] ..]
+        "dec_lib_norms" => {
+            let th = Algebraic::new(zp(&a[0]));
+            let o = rust_number_theory::integral_basis::find_integral_basis(&th);
+            let mt = o.get_mult_table(&th);
+            let r = prime_decomp::decompose(&th, &o, &mt, &a[1].int());
+            tl(r.iter().map(|(i, e)| tl(vec![tb(&i.norm()), ti(*e as u64)])).collect())
+        }
+        _ => return None,
+    })
 }
